@@ -4,7 +4,7 @@ id=$1; wt=/tmp/wt-$id; seed=/tmp/seed-$id
 export GOFLAGS=-mod=mod GOPROXY=off GOSUMDB=off
 cd $wt || exit 2
 place=$(python3 -c "import json;print(json.load(open('$seed/meta.json'))['demo_placement'].split(' ')[0])")
-git stash -q -u 2>/dev/null; git checkout -q -- . ; git clean -fdq
+git checkout -q -- . ; git clean -fdq
 git apply $seed/patch.diff || { echo "PATCH DOES NOT APPLY"; exit 1; }
 go build ./... || { echo "BUILD FAILS"; exit 1; }
 cp $seed/demo_test.go $place
